@@ -425,6 +425,13 @@ class Check(PropertyCheck):
                     if len(lst) > ash.ACK_TIMEOUTS:
                         return f"DATA frame transmitted {len(lst)} times (budget {ash.ACK_TIMEOUTS})"
             budget = any(len(v) >= ash.ACK_TIMEOUTS for v in sends.values())
+            # the budget is spent: a send that ends unacknowledged (NAK or timeout on its last permitted attempt)
+            # fails the link -- the upper layer is told with the reason in that very step
+            for e in st:
+                if e[0] == "done" and e[2] in ([1], [3]):
+                    if not any(x[0] == "reset" and x[1] == 0x51 for x in st):
+                        return (f"send {e[1]} gave up after the last permitted attempt ({'NAK' if e[2] == [1] else 'timeout'}) "
+                                f"but the upper layer was not told that the link failed")
             if err and sum(1 for e in st if e[0] == "reset" and e[1] not in (11, 2)) < 1:
                 return "ERROR frame not reported upward"
             if nreset_fail > 1 and not (err and nreset_fail <= sum(1 for fr in ev[1] if fr[0] == "ERROR") + 1):
